@@ -488,9 +488,11 @@ def run_oslevel(ctx, case, problems):
             def reset():
                 for p in os.listdir(box):
                     q = os.path.join(box, p)
-                    shutil.rmtree(q) if os.path.isdir(q) else os.remove(q)
-                if case["name"] == "sub/dir.out":
-                    os.makedirs(os.path.join(box, "sub"), exist_ok=True)
+                    if os.path.islink(q) or not os.path.isdir(q):
+                        os.remove(q)
+                    else:
+                        shutil.rmtree(q)
+                resolve_name(case["name"] if case["name"] not in ("file:REL",) else "plain.out", box)   # re-creates sub-directories / links
                 if case["present"]:
                     with open(dest, "wb") as f:
                         f.write(PREV)
